@@ -1,7 +1,7 @@
 PROP = {
     "id": "C46",
     "theorem_modules": ["Verif.Properties.C46"],
-    "min_theorems": 9,
+    "min_theorems": 13,
     "required_theorems": [
         "Verif.Properties.C46.rlpDecodeString_no_panic",
         "Verif.Properties.C46.rlpDecodeList_no_panic",
@@ -9,6 +9,10 @@ PROP = {
         "Verif.Properties.C46.string_rejects_rest",
         "Verif.Properties.C46.string_accepted_size",
         "Verif.Properties.C46.string_noncanonical_is_user_error",
+        "Verif.Properties.C46.list_accepts_canonical",
+        "Verif.Properties.C46.list_rejects_rest",
+        "Verif.Properties.C46.list_accepted_size",
+        "Verif.Properties.C46.list_noncanonical_is_user_error",
     ],
     "streams": [
         {"name": "rlp", "driver": "drv_rlp",
